@@ -30,6 +30,27 @@ claim("C04",
       "Coq proof (closed-form characterisation of the two seal loops, induction over generation sequences) + extracted-model lockstep correspondence + manifest oracle",
       "DESIGN.md 3 C04")
 
+claim("C02",
+      "Theorems (all trees, pattern lists, matchers, listing orders, histories): the traversal hands the command exactly the entries no pattern excludes -- a permutation of the specification `entries`, each entry once, nothing below an ignored folder -- and is independent of the order in which a folder is listed; each entry is routed to the deepest loaded history containing it and recorded under root ++ relative = path (no foreign components, so never absolute or escaping); inserting into a generation's record list never duplicates a path; every digest written is the digest of the file's bytes in the entry's own format. Tied to the code by lockstep runs of the extracted create model (folder / -sf / nested / -n / patterns) against the real tool on random trees (names with spaces, non-ASCII, XML-special, glob characters) and by an independent oracle comparing every new manifest with the tree.",
+      "PARTIAL: the composition of these steps inside create (fold over the traversal events, session, commit) is not a theorem; it is carried by the correspondence.",
+      "Coq proof (nested induction over trees, permutation reasoning, fold invariants) + extracted-model lockstep correspondence + manifest-vs-tree oracle",
+      "DESIGN.md 3 C02")
+claim("C07",
+      "Theorems (all trees, formats, matchers, primitives Hb): the recorded / recomputed directory hash equals the compositional definition vhash evaluated on the tree pruned of ignored entries; the digest list is sorted before hashing, so any enumeration order of a folder gives the same hashes (hash_of_hash_list and dirhash are permutation invariant); an empty directory hashes as the empty input; the content hash is invariant under renaming files and folders at any depth. Tied to the code by lockstep comparison of every <directoryhash>/<roothash> and of verify -dh -co output with the extracted model (whose Hb queries are answered by hashlib/xxhash) and by an independent recomputation.",
+      "PARTIAL: sensitivity (hash changes when content / a name changes) is a collision statement about the primitive and is only exercised by metamorphic runs. Decoding of digest texts is total only for well-formed digests (C01).",
+      "Coq proof (refinement dirhash = vhash o prune, permutation invariance via a verified sort, mutual induction for renaming) + lockstep correspondence + independent recomputation",
+      "DESIGN.md 3 C07")
+claim("C08",
+      "Theorems: a path is routed to a loaded history that contains it and whose root is at least as deep as that of any other loaded history containing it (fold invariant over any list of histories); containing roots of equal depth are equal, so string-prefix sibling names cannot confuse the component-wise routing; the record path is relative to that root; the root folder of a nested history is also recorded in its parent history as a directory entry with the same hashes; one history's commit either is skipped (no records, no references), aborts, or writes exactly one generation numbered latest+1, manifest before chain, creating the ascmhl folder only when absent, and hands exactly one reference (relative path, generation number) to its parent's list and to no other. Tied to the code by lockstep runs on random nestings (prefix-named siblings, depth <= 4, folder / -sf / -n) and an oracle that recomputes reference digests from the referenced files.",
+      "PARTIAL: the order of histories produced by load (children before parents) and the fold of commit over them are carried by the correspondence, not by a theorem.",
+      "Coq proof (fold invariants, case analysis of commit_one) + lockstep correspondence + reference/partition oracle",
+      "DESIGN.md 3 C08")
+claim("C12",
+      "Theorems: set_patterns puts the previous generation's list (or the defaults) first, unchanged and in order; contains exactly previous/default + command-line + file patterns; never a duplicate; the defaults (.DS_Store, ascmhl, ascmhl/ -- an obligation on the regenerated constant) can never be lost; blank lines of pattern files are skipped; over ANY sequence of runs each generation's list is a prefix of the next (induction); every generation a run writes -- root or nested -- carries set_patterns(own latest list, session list), so nested histories receive the parent's patterns; the traversal hands over exactly the non-ignored entries (an ignored entry and everything below an ignored folder is never hashed, recorded or reported new) and the missing-files report is filtered by the same matcher. Tied to the code by lockstep runs with -i / repeated -i / -ii over 1-5 generations, flat and nested, and an oracle on the <ignore> lists and record sets.",
+      "PARTIAL: pathspec's gitwildmatch semantics is an oracle (the matcher is a parameter of every theorem); that directory hashes skip ignored entries is C07's refinement theorem.",
+      "Coq proof (list induction, induction over run sequences, nested tree induction) + lockstep correspondence + pattern/record oracle",
+      "DESIGN.md 3 C12")
+
 PENDING = "check under construction (planned: proof + correspondence, see DESIGN.md section 3)"
 
 
